@@ -240,21 +240,39 @@ func unwrapAll(r *ev.Run, prop string, cloud *awskms.Cloud, regions []string, su
 				b = builtKMS{k, conf, upref}
 				unwrapCache[key] = b
 			}
-			for _, failDec := range subsets(conf) {
+			// every assignment of {ok, KMS Decrypt fails, KMS Decrypt returns a data key that cannot open the envelope}
+			modes := 1
+			for range conf {
+				modes *= 3
+			}
+			for mode := 0; mode < modes; mode++ {
 				cloud.Reset()
-				for _, d := range failDec {
-					cloud.Regions[d].FailDecrypt = true
+				var failDec, wrongPt []string
+				m := mode
+				for _, reg := range conf {
+					switch m % 3 {
+					case 1:
+						cloud.Regions[reg].FailDecrypt = true
+						failDec = append(failDec, reg)
+					case 2:
+						cloud.Regions[reg].WrongPlaintext = true
+						wrongPt = append(wrongPt, reg)
+					}
+					m /= 3
 				}
 				out, err := b.k.DecryptKey(context.Background(), append([]byte(nil), env...))
 				r.Eval(1)
 				r.Count("unwraps", 1)
 				r.Count(fmt.Sprintf("unwraps_v%d_to_v%d", wv, uv), 1)
-				desc := fmt.Sprintf("%s | v%d unwrap configured=%v preferred=%s failDecrypt=%v", wdesc, uv, conf, upref, failDec)
+				desc := fmt.Sprintf("%s | v%d unwrap configured=%v preferred=%s failDecrypt=%v wrongDataKey=%v", wdesc, uv, conf, upref, failDec, wrongPt)
 				can := false
 				for _, reg := range conf {
-					if has(entries, reg) && !has(failDec, reg) {
+					if has(entries, reg) && !has(failDec, reg) && !has(wrongPt, reg) {
 						can = true
 					}
+				}
+				if len(wrongPt) > 0 {
+					r.Count("unwraps_with_undecryptable_regional_kek", 1)
 				}
 				calls := cloud.Calls()
 				if c17 {
